@@ -1,9 +1,82 @@
-/- Driver operations for C13 (stub: to be filled by the property's model). -/
+/- Driver operations for C13: the device bookkeeping model (`Model/Devices.lean`) run on tagged statistics.
+A statistic is the triple (id, exponent, padding start); the filler is (N, 1, 0); the per-matrix
+computation `f` is the identity on tags, so every output shows which statistic's result landed where. -/
 import PrecondVerif.Kit.Proto
+import PrecondVerif.Model.Devices
 
 namespace PrecondVerif.Drv.C13
-open Lean PrecondVerif.Proto
+open Lean PrecondVerif.Proto PrecondVerif.Devices
 
-def ops : List Op := []
+abbrev Slot := Nat × Nat × Nat
+
+def mkSlots (exps pads : List Nat) : List Slot :=
+  (List.range exps.length).map fun i => (i, exps.getD i 0, pads.getD i 0)
+
+def ids (l : List Slot) : Json := natsToJson (l.map fun s => s.1)
+def rowsJson (f : Slot → Nat) (rows : List (List Slot)) : Json :=
+  listToJson natsToJson (rows.map (List.map f))
+
+def asRows (j : Json) : R (List (List Nat)) := asListOf (asListOf asNat) j
+
+def ops : List Op := [
+  ("to_pad", fun j => do
+    let n ← getNat j "n"
+    let D ← getNat j "D"
+    pure (obj [("to_pad", toJson (toPad n D)), ("sharded_to_pad", toJson (shardedToPad n D)),
+      ("sharded_declared", toJson (shardedDeclared n D))])),
+  ("batch", fun j => do
+    let n ← getNat j "n"
+    let D ← getNat j "D"
+    let rows := batch (List.range n) D
+    pure (obj [("rows", listToJson natsToJson rows), ("unbatched", natsToJson (unbatch rows))])),
+  ("unbatch", fun j => do
+    let rows ← asRows (← field j "rows")
+    pure (obj [("out", natsToJson (unbatch rows)), ("b2", toJson (rowWidth rows))])),
+  ("pmap_plan", fun j => do
+    let D ← getNat j "D"
+    let exps ← getNats j "exponents"
+    let pads ← getNats j "paddings"
+    let xs := mkSlots exps pads
+    let n := xs.length
+    let filler : Slot := (n, 1, 0)
+    let padded := padTo filler xs D
+    let rows := batch padded D
+    let gathered := pmapGathered (fun s => s) filler D xs
+    let b := rowWidth rows
+    pure (obj [
+      ("computed", Json.bool (!xs.isEmpty)),
+      ("to_pad", toJson (toPad n D)), ("total", toJson padded.length), ("b", toJson b),
+      ("exponents", natsToJson (padded.map fun s => s.2.1)),
+      ("paddings", natsToJson (padded.map fun s => s.2.2)),
+      ("rows_ids", rowsJson (fun s => s.1) rows),
+      ("rows_exponents", rowsJson (fun s => s.2.1) rows),
+      ("rows_paddings", rowsJson (fun s => s.2.2) rows),
+      ("gathered_ids", rowsJson (fun s => s.1) gathered),
+      ("gathered_shape", natsToJson [gathered.length, rowWidth gathered]),
+      ("all_ids", ids (pmapAll (fun s => s) filler D xs)),
+      ("kept_ids", ids (pmapCompute (fun s => s) filler D xs)),
+      ("kept_ids_quantized", ids ((pmapComputeQ (fun s => (s.1, s.2.1, s.2.2)) filler D xs))),
+      ("places", listToJson (fun i => let p := placeOf b i; natsToJson [p.1, p.2]) (List.range padded.length))])),
+  ("replicated_plan", fun j => do
+    let n ← getNat j "n"
+    pure (obj [("kept_ids", natsToJson (replicatedCompute (fun i => i) (List.range n)))])),
+  ("sharded_plan", fun j => do
+    let D ← getNat j "D"
+    let exps ← getNats j "exponents"
+    let idx ← asRows (← field j "index")
+    let xs := mkSlots exps []
+    let n := xs.length
+    let filler : Slot := (n, 1, 0)
+    let index := idx.map fun sc => (sc.getD 0 0, sc.getD 1 0)
+    let comp := shardedCompute (fun s => s) filler D xs
+    pure (obj [
+      ("to_pad", toJson (shardedToPad n D)),
+      ("count", toJson (shardedPad filler xs D).length),
+      ("declared", toJson (shardedDeclared n D)),
+      ("exponents", natsToJson ((shardedPad filler xs D).map fun s => s.2.1)),
+      ("computed_ids", ids comp),
+      ("computed_exponents", natsToJson (comp.map fun s => s.2.1)),
+      ("views", listToJson ids (shardedViews (fun s => s) filler D xs index))]))
+]
 
 end PrecondVerif.Drv.C13
